@@ -91,6 +91,22 @@ def cases(tier, seed):
                                         continue
                                     d.update(tau=1, embedding=2, n_pca_modes=None)
                                 out.append(d)
+    # ---- user weights holding the data's labels in ANOTHER element order (north-to-south weights for south-to-north data): the
+    #      product is label-aligned, the reference uses the weight of each label
+    for mdl in ("EOF", "HilbertEOF", "ExtendedEOF"):
+        for (n, p) in ([(12, 6)] if tier == "quick" else [(12, 6), (6, 4), (4, 6)]):
+            for (c, s, cl, w) in flags_all:
+                if not w:
+                    continue
+                for k in ((2, min(n, p)) if tier == "quick" else range(1, min(n, p) + 1)):
+                    d = dict(model=mdl, cplx=False, shape=[n, p], spec="geometric", scale=1.0, center=c, standardize=s, coslat=cl, weights=w, n_modes=k, solver="full", wpres="rev")
+                    if mdl == "HilbertEOF":
+                        d["padding"] = None
+                    if mdl == "ExtendedEOF":
+                        if k > 4:
+                            continue
+                        d.update(tau=1, embedding=2, n_pca_modes=None)
+                    out.append(d)
     # ---- HilbertEOF   (13 samples: an odd, prime length - no FFT fast path, no Nyquist bin)
     for padding in (None, "exp"):
         for (n, p) in ([(12, 6), (6, 4), (13, 3)] if tier == "quick" else [(6, 4), (9, 6), (12, 6), (8, 1), (13, 3), (11, 4)]):
@@ -147,6 +163,8 @@ def build_input(case, seed):
         rng = np.random.default_rng([seed, 77, p])
         wvec = 0.5 + rng.random(p) * 2.0
         wda = xr.DataArray(wvec.reshape(nlat, nlon), dims=("lat", "lon"), coords={"lat": da.lat, "lon": da.lon})
+    if wda is not None and case.get("wpres") == "rev":
+        wda = wda.isel(lat=slice(None, None, -1), lon=slice(None, None, -1))  # same labels, stored in reverse
     cl = np.repeat(R.sqrt_coslat(lats), nlon) if case["coslat"] else None
     return X, da, wda, wvec, cl
 
